@@ -79,8 +79,12 @@ impl ToLinker {
     pub fn new(cache: &Path, algo: Algorithm, target: &Path) -> Result<Self> {
         let file = File::open(target)
             .with_context(|| format!("Failed to open reader to {}", target.display()))?;
+        // The symlink lives in the content directory: a relative target would
+        // be resolved from there, so store it in absolute form.
+        let target = std::path::absolute(target)
+            .with_context(|| format!("Failed to resolve path {}", target.display()))?;
         Ok(Self {
-            target: target.to_path_buf(),
+            target,
             cache: cache.to_path_buf(),
             fd: file,
             builder: IntegrityOpts::new().algorithm(algo),
@@ -154,8 +158,12 @@ impl AsyncToLinker {
         let file = crate::async_lib::File::open(target)
             .await
             .with_context(|| format!("Failed to open reader to {}", target.display()))?;
+        // The symlink lives in the content directory: a relative target would
+        // be resolved from there, so store it in absolute form.
+        let target = std::path::absolute(target)
+            .with_context(|| format!("Failed to resolve path {}", target.display()))?;
         Ok(Self {
-            target: target.to_path_buf(),
+            target,
             cache: cache.to_path_buf(),
             fd: file,
             builder: IntegrityOpts::new().algorithm(algo),
